@@ -2,7 +2,7 @@
 """Generates seeded/TABLE.md from seeded/*/meta.json: one row per deliberately injected change."""
 import json, glob, os
 rows = []
-for d in sorted(glob.glob('/verif/seeded/C*-*')):
+for d in sorted(glob.glob('/verif/seeded/C*-*'), key=lambda d: (os.path.basename(d).split('-')[0], int(os.path.basename(d).split('-')[1]))):
     try:
         m = json.load(open(os.path.join(d, 'meta.json')))
     except Exception:
